@@ -169,10 +169,38 @@ def handle (toks : List String) : String :=
     | _, _ => "bad-op"
   | _ => "bad-op"
 
+/-- hash form: all byte strings of length `len` appended to `pre`, decoded (+ re-encoded) as
+`op`; FNV-1a over the output lines -/
+def hashBodies (op p : String) (pre : List UInt8) (len : Nat) : UInt64 := Id.run do
+  let mut h := fnvOffset
+  let total := 256 ^ len
+  for k in [0:total] do
+    let body := (List.range len).map fun j => UInt8.ofNat (k / 256 ^ (len - 1 - j))
+    h := fnvByte (fnvString h (handle [op, p, toHex (pre ++ body)])) 10
+  return h
+
+/-- hash form: the object `id` decoded from `base` with position `pos` replaced by every value of
+`lo ..= hi` -/
+def hashObjPos (p id : String) (base : List Int) (pos : Nat) (lo hi : Int) : UInt64 := Id.run do
+  let mut h := fnvOffset
+  let n := (hi - lo + 1).toNat
+  for k in [0:n] do
+    let xs := base.set pos (lo + k)
+    h := fnvByte (fnvString h (handle ["obj", p, id, intsStr xs])) 10
+  return h
+
 /-- `codec <proto> <op> …` = `<op> <proto> …` (the harness counts the codec as exercised) -/
 def handleTop (toks : List String) : String :=
   match toks with
   | "codec" :: p :: op :: rest => handle (op :: p :: rest)
+  | ["hbody", p, op, pre, len] =>
+    match parseHex pre, len.toNat? with
+    | some pre, some len => s!"h {hashBodies op p pre len}"
+    | _, _ => "bad-op"
+  | ["hobjpos", p, id, base, pos, lo, hi] =>
+    match parseInts base, pos.toNat?, lo.toInt?, hi.toInt? with
+    | some base, some pos, some lo, some hi => s!"h {hashObjPos p id base pos lo hi}"
+    | _, _, _, _ => "bad-op"
   | _ => handle toks
 
 def main : IO Unit := runStateless handleTop
